@@ -35,6 +35,10 @@ PROGRAMS = [
     "SELECT sum(amount * 2) AS s2 FROM orders",
     "SELECT sum(bal) AS b FROM orders",
     "SELECT kind, sum(bal) AS b, count(bal) AS n FROM orders GROUP BY kind",
+    # joins of two protected tables that do not follow the privacy-unit path (the unit equality added by the tracker is what bounds the sensitivity)
+    "SELECT sum(o.amount) AS s FROM orders AS o JOIN users AS u ON o.kind = u.city",
+    "SELECT sum(a.amount) AS s, count(b.amount) AS n FROM orders AS a JOIN orders AS b ON a.kind = b.kind",
+    "SELECT sum(u.age) AS s FROM users AS u LEFT JOIN orders AS o ON u.id = o.user_id",
 ]
 
 PARAMS = {
@@ -179,7 +183,7 @@ def main():
     pus = pucat.pu_defs()
     configs = [("chain", "default"), ("chain", "mult1")] if tier == "quick" else [(p, q) for p in pus for q in PARAMS]
     jobs, keys = [], []
-    progs_ = PROGRAMS[:int(os.environ["C01_PROGS"])] if os.environ.get("C01_PROGS") else (PROGRAMS if tier != "quick" else [PROGRAMS[i] for i in (0, 1, 2, 3, 5, 6, 7, 9, 12, 13)])
+    progs_ = PROGRAMS[:int(os.environ["C01_PROGS"])] if os.environ.get("C01_PROGS") else (PROGRAMS if tier != "quick" else [PROGRAMS[i] for i in (0, 1, 2, 3, 5, 6, 7, 9, 12, 13, 14, 16)])
     for sql in progs_:
         for pun, prm in configs:
             jobs.append(dict(op="rewrite", mode="dp", tables=tabs, privacy_unit=pus[pun], dp=PARAMS[prm], synthetic=False, sql=sql, render=True))
